@@ -93,6 +93,8 @@ impl Completions {
         }
 
         // Let the kernel write more completions.
+        #[cfg(a10_verif)]
+        crate::verif::yield_point(crate::verif::points::STORE_CQ_HEAD);
         unsafe { (&*self.entries_head.as_ptr()).store(head, Ordering::Release) };
 
         Ok(())
